@@ -28,6 +28,7 @@ import (
 
 	"github.com/IrineSistiana/mosdns/v5/pkg/dnsutils"
 	"github.com/IrineSistiana/mosdns/v5/pkg/pool"
+	"github.com/IrineSistiana/mosdns/v5/pkg/verifhook"
 	"go.uber.org/zap"
 )
 
@@ -344,6 +345,7 @@ func (c *reusableConn) exchange(ctx context.Context, q *[]byte) (*[]byte, error)
 		return nil, err
 	}
 
+	verifhook.Point("reuse.exchange.written")
 	select {
 	case resp := <-respChan:
 		return resp, nil
